@@ -68,6 +68,12 @@ func (c *Ctx) Crumb(w int, s string) {
 // firing is inconclusive unless a breadcrumb shows the child spinning, which
 // the caller decides from the returned flag.
 func (c *Ctx) RunPart(part string, timeout time.Duration, f func(c *Ctx)) {
+	c.RunPartAs(part, timeout, nil, f)
+}
+
+// RunPartAs is RunPart with the child started through a wrapper command (prefix), e.g. setpriv to run the part as
+// another user. The work directory and the state file are made writable for that user.
+func (c *Ctx) RunPartAs(part string, timeout time.Duration, prefix []string, f func(c *Ctx)) {
 	if p := os.Getenv("VERIF_CHILD_PART"); p != "" {
 		if p != part {
 			return
@@ -82,7 +88,13 @@ func (c *Ctx) RunPart(part string, timeout time.Duration, f func(c *Ctx)) {
 	for _, o := range olds {
 		os.Remove(o)
 	}
-	cmd := exec.Command(os.Args[0], os.Args[1:]...)
+	argv := append(append([]string{}, prefix...), os.Args...)
+	if len(prefix) > 0 {
+		os.Chmod(c.Work, 0o777)
+		os.WriteFile(state, nil, 0o666)
+		os.Chmod(state, 0o666)
+	}
+	cmd := exec.Command(argv[0], argv[1:]...)
 	cmd.Env = append(os.Environ(), "VERIF_CHILD_PART="+part, "VERIF_CHILD_STATE="+state, "VERIF_TIER="+c.Tier, fmt.Sprintf("VERIF_SEED=%d", c.Seed))
 	errFile := filepath.Join(c.Work, "stderr."+part)
 	ef, _ := os.Create(errFile)
